@@ -420,9 +420,36 @@ def selftest(tier: str) -> int:
                         loaded_css_urls=loaded_css_urls)
         return patch(dd, "_gen_exec_script", f)
 
+    def media_skipped_when_own_media_lists_no_file():
+        # "a Media without files has nothing to render": looks at the declaring Media class instead of the merged media
+        import django_components.component_media as cm
+        orig = cm._get_comp_cls_media
+
+        def f(comp_cls):
+            mi = getattr(comp_cls, "Media", None)
+            if not getattr(mi, "js", None) and not getattr(mi, "css", None):
+                return cm.MediaCls()
+            return orig(comp_cls)
+        return patch(cm, "_get_comp_cls_media", f)
+
+    def code_used_as_replacement_template():
+        # the generated tags are handed to the regex as a replacement TEMPLATE (backslash sequences are interpreted)
+        class Rx:
+            def __init__(self, rx):
+                self.rx = rx
+
+            def __getattr__(self, n):
+                return getattr(self.rx, n)
+
+            def sub(self, repl, content, *a, **k):
+                return self.rx.sub((lambda m: m.expand(repl(m))) if callable(repl) else repl, content, *a, **k)
+        return patch(dd, "PLACEHOLDER_REGEX", Rx(dd.PLACEHOLDER_REGEX))
+
     return run_probes(PID, [("media-files-not-deduplicated", media_not_deduplicated), ("blank-code-inlined", blank_code_inlined),
                             ("inline-js-order-reversed", inline_js_order_reversed),
-                            ("fragment-declares-no-css", fragment_declares_no_css)],
+                            ("fragment-declares-no-css", fragment_declares_no_css),
+                            ("media-skipped-when-own-Media-lists-no-file", media_skipped_when_own_media_lists_no_file),
+                            ("code-used-as-replacement-template", code_used_as_replacement_template)],
                       lambda chk: body(chk, mc_nodes=2, n_random=300, deep=3))
 
 
